@@ -274,10 +274,10 @@ func vfH_deadline() {
 	for i := 0; i < 3; i++ {
 		switch vfChoose(3) {
 		case 0:
-			cur = vfTime()
+			cur = vfDeadlinePick([]int{0, 1, 2})
 			vfAssert(c.SetWriteDeadline(cur) == nil, "setwritedeadline-ok")
 		case 1:
-			d := vfTime()
+			d := vfDeadlinePick([]int{0, -1, 3})
 			before := len(tc.ops)
 			err := c.WriteControl(PingMessage, []byte("d"), d)
 			if err == nil {
@@ -360,7 +360,7 @@ func vfH_close_seq() {
 	var err error
 	switch path {
 	case 0:
-		err = c.WriteControl(CloseMessage, FormatCloseMessage(1001, "bye"), vfTime())
+		err = c.WriteControl(CloseMessage, FormatCloseMessage(1001, "bye"), vfDeadline())
 		if err != nil {
 			// an expired deadline legitimately refuses the close: nothing was sent
 			vfReach("close-seq-refused")
